@@ -141,12 +141,16 @@ def generated_cases(pid, tier, seed):
 SLICE = {
     "C01": "routing+wiring", "C02": "routing+wiring", "C03": "routing+wiring", "C04": "routing+wiring",
     "C05": "wiring", "C06": "wiring", "C07": "routing+wiring", "C08": "ports", "C09": "routing+wiring",
-    "C11": "all", "C12": "all", "C13": "routing+wiring", "C14": "routing+wiring",
+    # C11 and C12 have no generator-level theorem: they are decided on the real output (and on regenerated
+    # facts) alone, so a difference between model and implementation says nothing about them
+    "C11": None, "C12": None, "C13": "routing+wiring", "C14": "routing+wiring",
 }
 
 
 def run_case(driver, cfg, props, model=True):
     """returns dict: status in {rejected, extractor-error, ok}, findings per prop"""
+    if props and SLICE.get(props[0], "all") is None:
+        model = False
     r = impl.run_floogen(cfg)
     if not r.ok:
         res = {"status": "rejected", "err": f"{r.err_type}: {r.err_msg}"}
